@@ -1,12 +1,20 @@
 (* C09/Props.v -- the property theorems, and nothing else.  Exact arithmetic: stored arrays over Z,
-   float-valued results over option Q (None = NaN), for every size of every array. *)
+   float-valued results over QN = option Q (None = NaN), for every size of every array.
+   amplitudes_true_Q, mean_amps_Q, waveform_durations_Q, get_depths_Q are the model of Model.v (the
+   operation sequence of phylib's code) instantiated with exact rational operations. *)
 From Coq Require Import ZArith QArith List Bool Sorted.
-From PV Require Import C09.Model C09.Spec C09.Proofs.
+From PV Require Import C09.Model C09.Spec C09.Proofs C09.Proofs2 C09.Proofs3 C09.Proofs4.
 Import ListNotations.
 Open Scope Z_scope.
 
+(* inside the shape guard (the conditions under which NumPy does not raise) the model returns *)
+Theorem C09_total : forall (i : amp_in) (f : QN), wf_amp i = true -> exists o, amplitudes_true_Q i f = Some o.
+Proof. exact amplitudes_true_total. Qed.
+Print Assumptions C09_total.
+
 (* Scaled spike amplitudes: for every spike k, stored amplitude * largest channel peak-to-peak of the
-   unwhitened template of the spike's id * unit factor.  (Every loaded model has all ids < n_wav.) *)
+   unwhitened template (data[s] . wmi, as an explicit sum) of the spike's id * unit factor.
+   (Every loaded model has all ids < n_wav: n_wav is n_templates, or max id + 1.) *)
 Theorem C09_spike_amps : forall (i : amp_in) (factor : Q) (o : amp_out QN),
   amplitudes_true_Q i (Some factor) = Some o ->
   (forall s, In s (ai_spikes i) -> s < ai_nwav i) ->
@@ -14,13 +22,132 @@ Theorem C09_spike_amps : forall (i : amp_in) (factor : Q) (o : amp_out QN),
 Proof. exact spike_amps_thm. Qed.
 Print Assumptions C09_spike_amps.
 
-(* ---- non-vacuity ---- *)
+(* Per-template (per-cluster) amplitudes: one entry per stored waveform; entry n is NaN when no spike is
+   assigned to n, otherwise (entry n) * (number of member spikes) = sum of the scaled amplitudes of the
+   member spikes -- the outputs are related to each other, for every id n below the number of waveforms *)
+Theorem C09_template_amps : forall (i : amp_in) (factor : Q) (o : amp_out QN),
+  amplitudes_true_Q i (Some factor) = Some o ->
+  Spec_template_amps i (ao_spike o) (ao_tamps o).
+Proof. exact template_amps_thm. Qed.
+Print Assumptions C09_template_amps.
+
+(* NaN exactly for the ids without spikes: any id below the number of waveforms, including the highest *)
+Theorem C09_empty_ids_nan : forall (i : amp_in) (factor : Q) (o : amp_out QN) (n : nat),
+  amplitudes_true_Q i (Some factor) = Some o -> (n < length (ai_data i))%nat ->
+  (nth_error (ao_tamps o) n = Some None <-> ~ In (Z.of_nat n) (ai_spikes i)).
+Proof. exact empty_ids_nan_thm. Qed.
+Print Assumptions C09_empty_ids_nan.
+
+(* The rescaled template n is the unwhitened template times a non-negative scale and its largest channel
+   peak-to-peak is exactly the per-template amplitude v -- for a template that is not flat (au > 0) and
+   a non-negative mean amplitude.  (A flat template with spikes gives 0/0 = NaN; a negative mean
+   amplitude flips the template: the peak is then |v|.) *)
+Theorem C09_rescaled_peak : forall (i : amp_in) (factor : Q) (o : amp_out QN) (n : nat) (t : mat) (v : Q) (au : Z),
+  amplitudes_true_Q i (Some factor) = Some o ->
+  nth_error (ai_data i) n = Some t -> Z.of_nat n < ai_nwav i ->
+  nth_error (ao_tamps o) n = Some (Some v) -> (0 <= v)%Q ->
+  IsPeakAmp (unwh (ai_wmi i) t) (length t) (length (ai_wmi i)) au -> 0 < au ->
+  Spec_rescaled i n t v (nth n (ao_phys o) []).
+Proof. exact rescaled_thm. Qed.
+Print Assumptions C09_rescaled_peak.
+
+(* ... and the rescaled template of an id without spikes is NaN everywhere *)
+Theorem C09_rescaled_nan : forall (i : amp_in) (factor : Q) (o : amp_out QN) (n : nat),
+  amplitudes_true_Q i (Some factor) = Some o -> nth_error (ao_tamps o) n = Some None ->
+  forall row x, In row (nth n (ao_phys o) []) -> In x row -> x = None.
+Proof. exact rescaled_nan_thm. Qed.
+Print Assumptions C09_rescaled_nan.
+
+(* the quantities named in the statements above are determined by the stored arrays *)
+Theorem C09_peak_unique : forall f ns nc,
+  (forall a a', IsPeakAmp f ns nc a -> IsPeakAmp f ns nc a' -> a = a') /\
+  (forall c c', IsPeakChannel f ns nc c -> IsPeakChannel f ns nc c' -> c = c').
+Proof. intros f ns nc. split; [apply IsPeakAmp_unique|apply IsPeakChannel_unique]. Qed.
+Print Assumptions C09_peak_unique.
+
+(* _amplitudes (templates_amplitudes / clusters_amplitudes): one entry per id that occurs, ids increasing,
+   entry * (number of member spikes) = sum of the stored amplitudes of the member spikes *)
+Theorem C09_mean_amps : forall (tmp amps : list Z),
+  (forall s, In s tmp -> 0 <= s) -> length amps = length tmp ->
+  exists out, mean_amps_Q tmp amps = Some out /\ Spec_mean_amps tmp amps out.
+Proof. exact mean_amps_thm. Qed.
+Print Assumptions C09_mean_amps.
+
+(* _channels: the peak channel of every waveform is the first channel with the largest peak-to-peak *)
+Theorem C09_peak_channel : forall (nc : nat) (data : list mat) (out : list Z),
+  channels nc data = Some out -> Spec_channels nc data out.
+Proof. exact channels_thm. Qed.
+Print Assumptions C09_peak_channel.
+
+(* templates_probes: the probe of the peak channel *)
+Theorem C09_template_probes : forall (nc : nat) (data : list mat) (probes out : list Z),
+  templates_probes nc data probes = Some out -> Spec_probes nc data probes out.
+Proof. exact probes_thm. Qed.
+Print Assumptions C09_template_probes.
+
+(* _waveform_durations: (first arg-max - first arg-min over the samples of the peak channel) / rate * 1000 *)
+Theorem C09_duration : forall (nc : nat) (data : list mat) (rate : Q) (out : list QN),
+  ~ (rate == 0)%Q ->
+  waveform_durations_Q nc data (Some rate) = Some out -> Spec_durations nc data rate out.
+Proof. exact durations_thm. Qed.
+Print Assumptions C09_duration.
+
+(* get_depths, for EVERY batch size >= 1 (the code uses 50000): every spike is visited exactly once and
+   depth * sum_c w_c = sum_c y_c * w_c with w_c = (positive part of the first PC)^2; NaN exactly when the
+   positive part vanishes *)
+Theorem C09_depths : forall (nbatch : Z) (i : depth_in) (data : list mat) (cols : mat),
+  1 <= nbatch -> wf_depth i = true -> di_feat i = Some (data, cols) ->
+  length data = Z.to_nat (di_nspikes i) ->
+  (forall s, In s data -> (1 <= length s)%nat) ->
+  exists out, get_depths_Q nbatch i = Some (Some out) /\ Spec_depths i data cols out.
+Proof. exact depths_thm. Qed.
+Print Assumptions C09_depths.
+
+Theorem C09_depths_none : forall (nbatch : Z) (i : depth_in),
+  wf_depth i = true ->
+  match di_feat i with
+  | None => True
+  | Some (data, _) => length data <> Z.to_nat (di_nspikes i)
+  end ->
+  get_depths_Q nbatch i = Some None.
+Proof. exact depths_none_thm. Qed.
+Print Assumptions C09_depths_none.
+
+(* ---- non-vacuity: concrete, non-trivial instances ---- *)
 Definition ex_in : amp_in :=
   mk_amp_in [ [[1; 0]; [-2; 3]] ; [[0; 5]; [4; -1]] ; [[7; 7]; [7; 0]] ]   (* three 2x2 templates *)
             [[1; 2]; [0; -1]]                                               (* wmi, not symmetric *)
-            [1; 0; 1; 0] [2; 3; 4; 5] 3.                                    (* template 2 has no spike *)
+            [1; 0; 1; 0] [2; 3; 4; 5] 3.                                    (* template 2 (the highest) has no spike *)
 Example C09_ex_amplitudes :
   option_map (fun o => (ao_spike o, ao_tamps o)) (amplitudes_true_Q ex_in (Some (5 # 2))) =
   Some ([Some (inject_Z 28 * (5 # 2)); Some (inject_Z 27 * (5 # 2)); Some (inject_Z 56 * (5 # 2)); Some (inject_Z 45 * (5 # 2))]%Q,
         [Some (inject_Z 72 / inject_Z 2 * (5 # 2)); Some (inject_Z 84 / inject_Z 2 * (5 # 2)); None]%Q).
 Proof. vm_compute. reflexivity. Qed.
+Example C09_ex_guard : wf_amp ex_in = true /\ (forall s, In s (ai_spikes ex_in) -> s < ai_nwav ex_in).
+Proof. split; [vm_compute; reflexivity|]. cbn. intros s [<-|[<-|[<-|[<-|[]]]]]; reflexivity. Qed.
+(* template 1 unwhitened is [[0;-5];[4;9]]: peak-to-peak 4 and 14 *)
+Example C09_ex_peak : IsPeakAmp (unwh (ai_wmi ex_in) [[0; 5]; [4; -1]]) 2 2 14.
+Proof.
+  exists [4; 14]. split; [split; [reflexivity|]|].
+  - intros [|[|c]] Hc; [| |exfalso; abstract (repeat apply Nat.succ_lt_mono in Hc; inversion Hc)].
+    + exists 4, 0. vm_compute. repeat split; auto; intros x [<-|[<-|[]]]; discriminate.
+    + exists 9, (-5). vm_compute. repeat split; auto; intros x [<-|[<-|[]]]; discriminate.
+  - split; [cbn; auto|]. intros x [<-|[<-|[]]]; discriminate.
+Qed.
+Example C09_ex_mean_amps :
+  mean_amps_Q [3; 0; 3; 3] [2; 7; 4; 6] = Some [Some (inject_Z 7 / inject_Z 1); Some (inject_Z 12 / inject_Z 3)]%Q.
+Proof. vm_compute. reflexivity. Qed.
+Example C09_ex_channels :     (* ties: channels 1 and 2 both have peak-to-peak 5: the first wins *)
+  channels 3 [ [[0; 5; 1]; [2; 0; 6]] ] = Some [1] /\
+  waveform_durations_Q 3 [ [[0; 5; 1]; [2; 0; 6]] ] (Some (inject_Z 30000)) =
+    Some [Some (inject_Z (0 - 1) / inject_Z 30000 * inject_Z 1000)%Q].
+Proof. split; vm_compute; reflexivity. Qed.
+Definition ex_depth : depth_in :=
+  mk_depth_in 3 (Some ([ [[2; 9]; [-1; 9]; [2; 9]]; [[0; 1]; [-3; 1]; [-4; 1]]; [[1; 0]; [1; 0]; [0; 0]] ],
+                       [[0; 2; 3]; [1; 2; 0]]))
+              [1; 0; 1] [[0; 0]; [0; 20]; [16; 40]; [16; 100]].
+Example C09_ex_depths :      (* batch size 2: two batches; spike 1 has no positive feature: NaN *)
+  wf_depth ex_depth = true /\
+  option_map (option_map (map (fun x => match x with Some q => Some (Qred q) | None => None end)))
+             (get_depths_Q 2 ex_depth) = Some (Some [Some (10 # 1); None; Some (30 # 1)]%Q).
+Proof. split; vm_compute; reflexivity. Qed.
